@@ -29,7 +29,7 @@ for name, (rc0, rc1, missing) in sorted(res.items()):
     for fn in ("patch.diff", "demo.py", "notes.md"):
         if os.path.exists(os.path.join(src, fn)): shutil.copy(os.path.join(src, fn), os.path.join(dst, fn))
     notes = open(os.path.join(src, "notes.md")).read() if os.path.exists(os.path.join(src, "notes.md")) else ""
-    json.dump({"property": prop, "origin": "independent sub-agent given only the property text and a scratch worktree (round %s: small local changes)" % TAG,
+    json.dump({"property": prop, "origin": "independent sub-agent given only the property text and a scratch worktree (round %s)" % TAG,
                "needs_to_manifest": " ".join(notes.split())[:600],
                "confirmed_by_me": {"command": "/verif/tools_confirm_seed.sh (scratch git worktree of /repo HEAD, removed afterwards)", "demo_exit_without_patch": rc0,
                                    "demo_exit_with_patch": rc1, "baseline_stable_tests_not_passing_with_patch": missing},
